@@ -19,7 +19,7 @@ import (
 	"verif/ref"
 )
 
-var c13Scripts = []string{"forward", "local-writer-blocked", "non-holder-tx", "reacquire-same-id", "release-then-write", "expiry", "third-replica", "lost-commit-response", "lost-acquire-response"}
+var c13Scripts = []string{"forward", "acquire-during-local-write", "acquire-during-catchup", "local-writer-blocked", "non-holder-tx", "reacquire-same-id", "release-then-write", "expiry", "third-replica", "lost-commit-response", "lost-acquire-response"}
 
 func init() {
 	register(&core.Check{
@@ -39,7 +39,7 @@ func init() {
 		Run:         runC13,
 		Floors: func(tier string) map[string]int {
 			return map[string]int{"forwarded_commits": 60, "forwarded_journal": 10, "forwarded_wal": 10, "grants": 40, "local_writer_blocked": 4,
-				"forged_tx_rejected": 12, "reacquire_same_lock": 4, "primary_writes_after_release": 8, "expired_holder_rejected": 4, "third_replica_converged": 4}
+				"forged_tx_rejected": 12, "reacquire_same_lock": 4, "primary_writes_after_release": 8, "expired_holder_rejected": 4, "third_replica_converged": 4, "acquire_raced_with_local_commit": 4}
 		},
 	})
 }
@@ -196,8 +196,74 @@ func runC13(c *core.Case) {
 	}
 
 	// ---- grant -------------------------------------------------------------
+	switch script {
+	case "acquire-during-catchup":
+		// the replica asks for the lock while transactions are still on their way to it
+		if pw.conn == nil {
+			if pw, err = newWriter(e.p.Node, "db", ps, wal, "delete", pw.d.M, c.SubRng("pw1"), e.led, 1); err == nil {
+				e.pw = pw
+				err = pw.ensure(3)
+			}
+		}
+		for i := 0; i < 3 && err == nil; i++ {
+			_, err = pw.txn(2)
+		}
+		if err != nil {
+			c.Violate("C13/setup", err.Error(), nil)
+			return
+		}
+		if !wal {
+			pw.close()
+		}
+	case "acquire-during-local-write":
+		// the halt request arrives while a local writer is inside a transaction,
+		// which then commits: the grant must name the position after that commit
+		if pw.conn == nil {
+			if pw, err = newWriter(e.p.Node, "db", ps, wal, "delete", pw.d.M, c.SubRng("pw1"), e.led, 1); err == nil {
+				e.pw = pw
+				err = pw.ensure(3)
+			}
+		}
+		if err != nil {
+			c.Violate("C13/setup", err.Error(), nil)
+			return
+		}
+	}
 	posAtGrant := mon.PosOf(e.p.Node, "db")
-	err = e.acquire()
+	if script == "acquire-during-local-write" {
+		acq := make(chan error, 1)
+		steps, fireAt := 0, 3+c.Rng.IntN(6)
+		pw.d.Hook = func(step string) error {
+			steps++
+			if steps == fireAt {
+				go func() { acq <- e.acquire() }()
+				time.Sleep(time.Duration(5+c.Rng.IntN(25)) * time.Millisecond)
+			}
+			return nil
+		}
+		_, werr := pw.txn(2)
+		pw.d.Hook = nil
+		if werr != nil {
+			c.Violate("C13/setup", "local writer: "+werr.Error(), e.detail(nil))
+			return
+		}
+		if steps < fireAt {
+			go func() { acq <- e.acquire() }()
+		}
+		if !wal {
+			pw.close()
+		}
+		select {
+		case err = <-acq:
+		case <-time.After(30 * time.Second):
+			c.Violate("C13/acquire-hangs", "halt lock acquisition did not return within 30 s after the local writer finished", e.detail(nil))
+			return
+		}
+		posAtGrant = mon.PosOf(e.p.Node, "db")
+		c.Count("acquire_raced_with_local_commit", 1)
+	} else {
+		err = e.acquire()
+	}
 	if script == "lost-acquire-response" {
 		// the first attempt fails at R although P granted: retry with a new handle
 		// (same LockHandle keeps its id: FUSE retries the same request)
@@ -282,7 +348,7 @@ func runC13(c *core.Case) {
 
 	outcome := "ok"
 	switch script {
-	case "forward", "third-replica", "lost-acquire-response":
+	case "forward", "third-replica", "lost-acquire-response", "acquire-during-local-write", "acquire-during-catchup":
 		if !forward(2+c.Rng.IntN(4), script) {
 			return
 		}
@@ -521,9 +587,16 @@ func runC13(c *core.Case) {
 	c.Count("primary_writes_after_release", 1)
 	healthViolations(c, e.p.Node, "end", e.detail(nil))
 	// replicas converge
-	if outcome != "expired" {
+	{
 		for i := 1; i < len(nodes); i++ {
 			rn := cl.Nodes[i]
+			if rn.Exited() {
+				continue // a dead process (fatal exit by design after a failed WAL commit step)
+			}
+			if outcome == "expired" && i == 1 {
+				// the former holder's SQLite connection is gone: its locks are released
+				e.rw.close()
+			}
 			ok, _, timedOut := cl.WaitConverged(e.p, rn, []string{"db"}, 5, 30*time.Second)
 			if timedOut {
 				c.Inconclusive("convergence watchdog")
